@@ -301,6 +301,17 @@ func (e *engine) run() {
 		for i := 0; i < n; i++ {
 			b := e.mutate(seeds[i%len(seeds)], i)
 			out, alloc := measure(func() string { return d.run(b) })
+			limit0 := d.limit
+			if d.flat {
+				limit0 = 64*uint64(len(b)) + 65536
+			}
+			// TotalAlloc is process-wide: background goroutines (timers, GC workers) add noise.
+			// An over-limit reading counts only if it repeats: take the minimum of up to 4 runs.
+			for k := 0; k < 3 && alloc > limit0; k++ {
+				if _, a2 := measure(func() string { return d.run(b) }); a2 < alloc {
+					alloc = a2
+				}
+			}
 			if alloc > worst[d.name] {
 				worst[d.name] = alloc
 			}
